@@ -210,6 +210,23 @@ def deserializeAll {E X K : Type} (d : Disc) (key : E → K) (lt : K → K → B
     (imgs : List (Image E X)) (tgt : List (Local E X)) : List (Local E X) :=
   List.zipWith (deserializeRank d key lt) imgs tgt
 
+/-! ## the rank files under one prefix (a prefix may be reused) -/
+
+/-- the files `fname ++ to_string(r)`: what each holds, if it exists -/
+abbrev Files (E X : Type) := Nat → Option (Image E X)
+
+/-- `serialize(fname)` on a communicator of `c.length` ranks: EVERY rank — also one that owns
+nothing — opens `fname + rank` with `std::ofstream(.., binary)` (which truncates) and writes its
+image; files with other indices (left by a run on more ranks) are not touched -/
+def writeAll {E X : Type} (fs : Files E X) (c : List (Local E X)) : Files E X :=
+  fun r => if h : r < c.length then some (serializeRank c.length c[r]) else fs r
+
+/-- `deserialize(fname)`: rank `r` reads file `r` into its state; `none` = the file does not
+exist (the archive constructor throws on the failed stream: the rank dies) -/
+def readAll {E X K : Type} (d : Disc) (key : E → K) (lt : K → K → Bool)
+    (fs : Files E X) (tgt : List (Local E X)) : List (Option (Local E X)) :=
+  tgt.mapIdx (fun r t => (fs r).map (fun img => deserializeRank d key lt img t))
+
 /-! ## the leading barrier -/
 
 /-- State of rank `r` when the barrier at the head of `serialize` returns: every pending
